@@ -557,6 +557,14 @@ func init() {
 	intrinsics["(*sync.RWMutex).Unlock"] = func(in *Interp, caller *frame, fn *ssa.Function, args []Value) Value { return nil }
 	intrinsics["(*sync.RWMutex).RLock"] = func(in *Interp, caller *frame, fn *ssa.Function, args []Value) Value { in.syncUse("RWMutex.RLock"); return nil }
 	intrinsics["(*sync.RWMutex).RUnlock"] = func(in *Interp, caller *frame, fn *ssa.Function, args []Value) Value { return nil }
+	intrinsics["(*sync.WaitGroup).Add"] = func(in *Interp, caller *frame, fn *ssa.Function, args []Value) Value { return nil }
+	intrinsics["(*sync.WaitGroup).Done"] = func(in *Interp, caller *frame, fn *ssa.Function, args []Value) Value { return nil }
+	intrinsics["(*sync.WaitGroup).Wait"] = func(in *Interp, caller *frame, fn *ssa.Function, args []Value) Value {
+		in.syncUse("WaitGroup.Wait")
+		in.path.Covers = append(in.path.Covers, "engine-goroutines-run-atomically")
+		in.runPendingGo(caller)
+		return nil
+	}
 	intrinsics["(*sync.Once).Do"] = func(in *Interp, caller *frame, fn *ssa.Function, args []Value) Value {
 		once := args[0].(*Value)
 		st := (*once).(Struct)
@@ -758,6 +766,23 @@ func init() {
 		}
 		in.openFiles[p] = r[0].([]Value)
 		return Tuple{p, Iface{}}
+	}
+	intrinsics["(*os.File).Read"] = func(in *Interp, caller *frame, fn *ssa.Function, args []Value) Value {
+		f := args[0].(*Value)
+		content, ok := in.openFiles[f]
+		if f == nil || !ok {
+			in.unsupported("(*os.File).Read on a file that was not opened through os.Open")
+		}
+		buf := args[1].([]Value)
+		if len(content) == 0 {
+			if len(buf) == 0 {
+				return Tuple{int64(0), Iface{}}
+			}
+			return Tuple{int64(0), in.ioEOF()}
+		}
+		n := copy(buf, content)
+		in.openFiles[f] = content[n:]
+		return Tuple{int64(n), Iface{}}
 	}
 	intrinsics["(*os.File).Close"] = func(in *Interp, caller *frame, fn *ssa.Function, args []Value) Value { return Iface{} }
 	intrinsics["io.ReadAll"] = func(in *Interp, caller *frame, fn *ssa.Function, args []Value) Value {
@@ -1389,4 +1414,17 @@ func (in *Interp) lookupMethod(t types.Type, name string) *ssa.Function {
 		return nil
 	}
 	return in.prog.MethodValue(sel)
+}
+
+// ioEOF: the value of the package variable io.EOF.
+func (in *Interp) ioEOF() Value {
+	if pkg := in.prog.ImportedPackage("io"); pkg != nil {
+		if g, ok := pkg.Members["EOF"].(*ssa.Global); ok {
+			if cell, ok := in.globals[g]; ok {
+				return *cell
+			}
+		}
+	}
+	in.unsupported("io.EOF is not initialised")
+	return nil
 }
